@@ -152,7 +152,8 @@ class SearchCriteria(metaclass=ABCMeta):
             name, value = key.filter_header
             return HeaderSearchCriteria(name, value, params)
         elif key_name in (b'BODY', b'TEXT'):
-            return BodySearchCriteria(key.filter_str, params)
+            return BodySearchCriteria(key.filter_str, params,
+                                      with_header=(key_name == b'TEXT'))
         raise SearchNotAllowed(key)
 
 
@@ -429,10 +430,18 @@ class HeaderSearchCriteria(SearchCriteria):
 class BodySearchCriteria(SearchCriteria):
     """Matches if the message body contains a value."""
 
-    def __init__(self, value: str, params: SearchParams) -> None:
+    def __init__(self, value: str, params: SearchParams, *,
+                 with_header: bool = True) -> None:
         super().__init__(params)
         self.value = bytes(value, 'utf-8', 'replace')
+        self.with_header = with_header
 
     def matches(self, msg_seq: int, msg: MessageInterface,
                 loaded_msg: LoadedMessageInterface) -> bool:
-        return loaded_msg.contains(self.value)
+        if self.with_header:  # TEXT
+            return loaded_msg.contains(self.value)
+        text = loaded_msg.get_message_text()  # BODY
+        if text is None:
+            return False
+        pattern = re.compile(re.escape(self.value), re.I)
+        return pattern.search(bytes(text)) is not None
